@@ -140,7 +140,7 @@ def candidates(rng, shapes):
         return "tile", {"reps": rng.choice([2, [1, 2], [2, 1], [2, 1, 1], 1])}, [i]
     if fam == "join":
         fn = rng.choice(["concatenate", "stack", "hstack", "vstack", "dstack"])
-        k = rng.randint(2, 3)
+        k = rng.randint(1, 3)                 # a sequence holding a single operand is legal too
         ops = [i] + [rng.randrange(len(shapes)) for _ in range(k - 1)]
         p = {}
         if fn == "concatenate":
